@@ -38,16 +38,21 @@ SYMS = ['Li', 'S', 'Li', 'S', 'P']
 LAYOUTS = {'Li': ['Li', 'S', 'Li', 'S', 'P'], 'Si': ['Si', 'S', 'Si', 'S', 'P']}
 PATTERNS = [
     [(0, 0.15), (1, -0.2), (2, 0.0), (0, 0.15)],
+    [(1, 0.15), (1, -0.15), (0, 0.0), (2, 0.0)],  # out and back: the atom is at its start again from the third frame on
     [(1, 0.0), (1, 0.15), (0, -0.2), (2, -0.2)],
-    [(2, -0.2), (2, -0.2), (2, 0.15), (1, 0.15)],
     [(0, 0.0), (0, 0.0), (0, 0.0), (0, 0.0)],
+    [(2, -0.2), (2, -0.2), (2, 0.15), (1, 0.15)],  # (not used: the tiers take the first 3 / 4 patterns)
 ]
 DRIFTS = [
     [(0.0, 0.0, 0.0)] * 4,
+    [(0.15, 0.0, -0.2), (0.0, 0.15, 0.15), (-0.15, -0.15, 0.05), (0.0, 0.0, 0.0)],  # closed loop: the frame is back at its start in the last frame(s)
     [(0.15, 0.0, -0.2), (0.15, 0.15, 0.0), (-0.2, 0.0, 0.15), (0.0, -0.2, 0.15)],
     [(-0.2, -0.2, -0.2), (0.0, 0.15, 0.0), (0.15, -0.2, 0.15), (0.15, 0.15, 0.15)],
     [(0.0, 0.0, 0.15), (0.0, 0.0, 0.15), (0.0, 0.0, 0.15), (0.0, 0.0, 0.15)],
 ]
+TIME_STEPS = [2e-15, 1.5e-15, 1e-16, 3e-15, 7.5e-16, 1.2e-15]  # the corrected trajectory keeps the time step bit for bit
+
+
 def forms(fl):
     return [
         ('none', {}, [0, 1, 2, 3, 4]),
@@ -82,7 +87,7 @@ def shards(tier, seed):
         for cls in ('Species', 'Element', 'SpeciesOx'):
             for p0 in range(K):
                 for T in ([4] if tier == 'quick' else [4, 5]):
-                    out.append({'lat': lname, 'M': M.tolist(), 'cls': cls, 'K': K, 'p0': p0, 'T': T, 'nd': 3 if tier == 'quick' else 4, 'layout': 'Li' if (p0 + T) % 2 == 0 or tier == 'thorough' else 'Si'})
+                    out.append({'lat': lname, 'M': M.tolist(), 'cls': cls, 'K': K, 'p0': p0, 'T': T, 'nd': 3 if tier == 'quick' else 5, 'layout': 'Li' if (p0 + T) % 2 == 0 or tier == 'thorough' else 'Si'})
                     if tier == 'thorough':
                         out.append(dict(out[-1], layout='Si'))
     return out
@@ -115,8 +120,9 @@ def evaluate(assign, drift_idx, T, M, cls, layout='Li'):
     wrap = lambda c: np.mod(c, 1)  # noqa: E731
     keys = []
     for fi, (fname, kw, ref) in enumerate(FORMS):
-        t0 = concretise.make_trajectory(wrap(x), SYMS, M, time_step=2e-15, temperature=321.0, species_cls=cls)
-        t1 = concretise.make_trajectory(wrap(xd), SYMS, M, time_step=2e-15, temperature=321.0, species_cls=cls)
+        ts = TIME_STEPS[fi % len(TIME_STEPS)]
+        t0 = concretise.make_trajectory(wrap(x), SYMS, M, time_step=ts, temperature=321.0, species_cls=cls)
+        t1 = concretise.make_trajectory(wrap(xd), SYMS, M, time_step=ts, temperature=321.0, species_cls=cls)
         try:
             if fi % 2:
                 t0.displacements  # the source may be in either internal representation when corrected
@@ -149,6 +155,8 @@ def evaluate(assign, drift_idx, T, M, cls, layout='Li'):
             c00 = c0.apply_drift_correction(**kw)
             if not circ(np.array(c00.positions), p0) or not np.allclose(np.array(c00.displacements), d0, atol=1e-12):
                 viols.append(('correction-not-idempotent', f'{fname}'))
+            if c00.time_step != t0.time_step or c00_early.time_step != t0.time_step:
+                viols.append(('lattice-timestep-or-metadata-changed', f'{fname}: time step after a second correction {c00.time_step!r} vs {t0.time_step!r}'))
             if not circ(np.array(c00_early.positions), p0) or not np.allclose(np.array(c00_early.displacements), d0, atol=1e-12):
                 viols.append(('correction-not-idempotent-when-applied-to-displacement-mode-object', f'{fname}: first frame {np.array(c00_early.positions)[0].tolist()} vs {p0[0].tolist()}'))
             c1 = t1.apply_drift_correction(**kw)
